@@ -55,6 +55,18 @@ def fixture_classes(tier: str, seed: int):
                 for s in (W.Expand(), W.ExpandTrim(), W.ExpandTrimRename(), W.RemoveFront(), W.SplitFront(), W.Swap(), W.Cycle()):
                     if s.decomposition_function(c) is not None:
                         out.append((c, s))
+    forced = []
+    # three letters, two statistics that coincide on the children in which 'c' can no longer occur (#a and #{a,c}): several parent
+    # statistics mapped onto one child statistic while that child still has many objects per size
+    for pats in (["ac", "bc"], ["ac", "bc", "aa"], ["ac", "bc", "cc"]):
+        for pre in ("", "c", "a", "cb"):
+            c = W.WC(pre, pats, "abc", False, (("k1", "a"), ("k2", "ac")))
+            if c.is_empty():
+                continue
+            for s in (W.ExpandMerge(), W.RemoveFrontMerge(), W.Expand()):
+                if s.decomposition_function(c) is not None:
+                    out.append((c, s))
+                    forced.append((c, s))
     rnd = random.Random(seed + 9)
     rnd.shuffle(out)
     if tier == "quick":
@@ -68,6 +80,7 @@ def fixture_classes(tier: str, seed: int):
             per[k] = per.get(k, 0) + 1
             if per[k] <= 30:
                 keep.append(x)
+        keep = forced + [x for x in keep if x not in forced]
         rest = [x for x in out if x not in keep]
         out = (keep + rest)[:520]
     return out
